@@ -324,6 +324,12 @@ def classify(unit: Unit, h: Harness, out: str, rc: int, timed_out: bool, wall: f
         else:
             r.reason = "VACUITY: canary (a false claim) verified — the harness assumptions exclude everything"
         return r
+    # a genuine failed obligation decides the harness even if, on other paths, a bound or a model capacity was exceeded:
+    # unwinding/capacity failures only remove paths, they cannot create a counterexample for another check
+    if genuine:
+        r.outcome = "failed"
+        r.reason = genuine[0].description
+        return r
     if unwind:
         r.reason = "unwinding assertion failed (bound too small): " + unwind[0].location
         return r
@@ -332,10 +338,6 @@ def classify(unit: Unit, h: Harness, out: str, rc: int, timed_out: bool, wall: f
         return r
     if model_fail:
         r.reason = "model capacity / model-internal assertion: " + model_fail[0].description
-        return r
-    if genuine:
-        r.outcome = "failed"
-        r.reason = genuine[0].description
         return r
     if undet:
         r.reason = "UNDETERMINED checks: " + undet[0].description
